@@ -237,3 +237,602 @@ Proof.
   destruct (len full <? n) eqn:E1; destruct (n <=? len full) eqn:E2; try lia; try reflexivity.
   apply ahx_finish_take; assumption.
 Qed.
+
+(* ------------------------------------------------------------------ RunLength *)
+
+Lemma len_repeat : forall x c, len (repeat x c) = Z.of_nat c.
+Proof. intros x c. unfold len. rewrite repeat_length. reflexivity. Qed.
+
+Lemma firstn_repeat_le : forall (x : N) c k, (k <= c)%nat -> firstn k (repeat x c) = repeat x k.
+Proof.
+  intros x c. induction c as [|c IH]; intros k Hk.
+  - replace k with 0%nat by lia. reflexivity.
+  - destruct k as [|k]; [reflexivity|]. simpl. f_equal. apply IH. lia.
+Qed.
+
+Lemma rl_rep_unlimited : forall c x w, rl_rep c x w (-1) (-1) = (repeat x c, GoOn).
+Proof.
+  induction c as [|c IH]; intros x w.
+  - reflexivity.
+  - cbn [rl_rep]. change (0 <=? -1) with false. simpl andb. cbv iota. rewrite IH. reflexivity.
+Qed.
+
+Lemma rl_rep_limited : forall c x w limit maxLen, 0 <= limit -> w <= limit ->
+  rl_rep c x w limit maxLen =
+  if Z.of_nat c <=? limit - w then (repeat x c, GoOn)
+  else (repeat x (Z.to_nat (limit - w)), if 0 <=? maxLen then StopOk else StopErr).
+Proof.
+  induction c as [|c IH]; intros x w limit maxLen Hl0 Hw.
+  - cbn [rl_rep]. destruct (Z.of_nat 0 <=? limit - w) eqn:E; [reflexivity|lia].
+  - cbn [rl_rep]. destruct (0 <=? limit) eqn:E0; [|lia].
+    simpl andb.
+    destruct (limit =? w) eqn:E1.
+    + destruct (Z.of_nat (S c) <=? limit - w) eqn:E2; [lia|].
+      replace (limit - w) with 0 by lia. reflexivity.
+    + rewrite IH by lia.
+      destruct (Z.of_nat c <=? limit - (w + 1)) eqn:E2; destruct (Z.of_nat (S c) <=? limit - w) eqn:E3; try lia.
+      * reflexivity.
+      * replace (Z.to_nat (limit - w)) with (S (Z.to_nat (limit - (w + 1)))) by lia. reflexivity.
+Qed.
+
+Lemma dcons_ok : forall b r full, dcons b r = DOk full -> exists f', full = b :: f' /\ r = DOk f'.
+Proof. intros b [l|e] full H; simpl in H; [|discriminate]. inversion H. eauto. Qed.
+
+Lemma dapp_ok : forall p r full, dapp p r = DOk full -> exists f', full = p ++ f' /\ r = DOk f'.
+Proof. intros p [l|e] full H; simpl in H; [|discriminate]. inversion H. eauto. Qed.
+
+Definition rl_spec (full : list N) (limit w maxLen : Z) : dres :=
+  if len full <=? limit - w then DOk full
+  else if 0 <=? maxLen then DOk (take (limit - w) full) else DErr ELimit.
+
+(* The limited / bounded run against the unlimited run, for every loop state. *)
+Lemma rl_dec_limited : forall n src k w full limit maxLen,
+  (length src <= n)%nat ->
+  rl_dec src k w (-1) (-1) = DOk full ->
+  0 <= limit -> w <= limit ->
+  rl_dec src k w limit maxLen = rl_spec full limit w maxLen.
+Proof.
+  induction n as [|n IH]; intros src k w full limit maxLen Hn H Hl0 Hw.
+  - destruct src; [|simpl in Hn; lia]. simpl in H. inversion H; subst. unfold rl_spec. simpl rl_dec.
+    rewrite len_nil. destruct (0 <=? limit - w) eqn:E; [reflexivity|lia].
+  - destruct src as [|b rest].
+    { simpl in H. inversion H; subst. unfold rl_spec. simpl rl_dec.
+      rewrite len_nil. destruct (0 <=? limit - w) eqn:E; [reflexivity|lia]. }
+    simpl length in Hn.
+    destruct k as [|k'].
+    + (* block header *)
+      cbn [rl_dec] in H |- *.
+      destruct (b =? 128)%N eqn:Eb.
+      { inversion H; subst. unfold rl_spec. rewrite len_nil. destruct (0 <=? limit - w) eqn:E; [reflexivity|lia]. }
+      destruct (b <? 128)%N eqn:Eb2.
+      { destruct (length rest <? S (N.to_nat b))%nat eqn:El; [discriminate H|].
+        apply IH; try assumption. lia. }
+      destruct rest as [|x rest']; [discriminate H|].
+      rewrite rl_rep_unlimited in H. apply dapp_ok in H. destruct H as [f' [-> Hrec]].
+      rewrite len_repeat in Hrec.
+      rewrite rl_rep_limited by assumption.
+      set (c := (257 - N.to_nat b)%nat) in *.
+      unfold rl_spec. rewrite len_app, len_repeat.
+      pose proof (len_nonneg f') as Hf.
+      destruct (Z.of_nat c <=? limit - w) eqn:Ec.
+      * rewrite len_repeat.
+        rewrite (IH rest' O (w + Z.of_nat c) f' limit maxLen); try assumption; try lia.
+        2:{ simpl length in Hn. lia. }
+        unfold rl_spec.
+        destruct (len f' <=? limit - (w + Z.of_nat c)) eqn:E1;
+          destruct (Z.of_nat c + len f' <=? limit - w) eqn:E2; try lia.
+        -- reflexivity.
+        -- destruct (0 <=? maxLen); [|reflexivity]. simpl dapp. f_equal.
+           rewrite take_app by (rewrite len_repeat; lia). rewrite len_repeat. f_equal. f_equal. lia.
+      * destruct (Z.of_nat c + len f' <=? limit - w) eqn:E2; [lia|].
+        destruct (0 <=? maxLen); [|reflexivity]. f_equal.
+        rewrite take_app_short by (rewrite len_repeat; lia).
+        unfold take. rewrite firstn_repeat_le by lia. reflexivity.
+    + (* inside a literal run *)
+      cbn [rl_dec] in H |- *.
+      change (0 <=? -1) with false in H. simpl andb in H. cbv iota in H.
+      apply dcons_ok in H. destruct H as [f' [-> Hrec]].
+      destruct (0 <=? limit) eqn:E0; [|lia]. simpl andb.
+      unfold rl_spec. rewrite len_cons. pose proof (len_nonneg f') as Hf.
+      destruct (limit =? w) eqn:E1.
+      * destruct (1 + len f' <=? limit - w) eqn:E2; [lia|].
+        replace (limit - w) with 0 by lia. rewrite take_0. reflexivity.
+      * rewrite (IH rest k' (w + 1) f' limit maxLen); try assumption; try lia.
+        unfold rl_spec.
+        destruct (len f' <=? limit - (w + 1)) eqn:E2; destruct (1 + len f' <=? limit - w) eqn:E3; try lia.
+        -- reflexivity.
+        -- destruct (0 <=? maxLen); [|reflexivity]. simpl dcons. f_equal.
+           rewrite take_cons by lia. f_equal. f_equal. lia.
+Qed.
+
+Lemma rl_limit_exact : forall src full mdb,
+  rl_decode_length src (-1) (-1) = DOk full ->
+  let L := decode_limit (-1) mdb in
+  0 <= L ->
+  rl_decode_length src (-1) mdb = if len full <=? L then DOk full else DErr ELimit.
+Proof.
+  intros src full mdb H L HL. unfold rl_decode_length in *. fold L.
+  rewrite decode_limit_unlimited in H.
+  rewrite (rl_dec_limited _ src O 0 full L (-1) (le_n _) H HL HL).
+  unfold rl_spec. rewrite Z.sub_0_r. change (0 <=? -1) with false. reflexivity.
+Qed.
+
+Lemma rl_bounded : forall src full n mdb,
+  rl_decode_length src (-1) (-1) = DOk full -> 0 <= n ->
+  rl_decode_length src n mdb = DOk (take n full).
+Proof.
+  intros src full n mdb H Hn. unfold rl_decode_length in *.
+  rewrite decode_limit_unlimited in H. rewrite decode_limit_bounded by exact Hn.
+  rewrite (rl_dec_limited _ src O 0 full n n (le_n _) H Hn Hn).
+  unfold rl_spec. rewrite Z.sub_0_r.
+  destruct (len full <=? n) eqn:E.
+  - rewrite take_all by lia. reflexivity.
+  - destruct (0 <=? n) eqn:E2; [reflexivity|lia].
+Qed.
+
+(* never more than the limit, for every input (also malformed ones) and every loop state *)
+Lemma rl_dec_never_more : forall n src k w limit maxLen out,
+  (length src <= n)%nat -> 0 <= limit -> w <= limit ->
+  rl_dec src k w limit maxLen = DOk out -> len out <= limit - w.
+Proof.
+  induction n as [|n IH]; intros src k w limit maxLen out Hn Hl0 Hw H.
+  - destruct src; [|simpl in Hn; lia]. simpl in H. inversion H. rewrite len_nil. lia.
+  - destruct src as [|b rest].
+    { simpl in H. inversion H. rewrite len_nil. lia. }
+    simpl length in Hn. destruct k as [|k'].
+    + cbn [rl_dec] in H.
+      destruct (b =? 128)%N. { inversion H. rewrite len_nil. lia. }
+      destruct (b <? 128)%N.
+      { destruct (length rest <? S (N.to_nat b))%nat; [discriminate H|].
+        eapply IH; try eassumption. lia. }
+      destruct rest as [|x rest']; [discriminate H|].
+      rewrite rl_rep_limited in H by assumption.
+      set (c := (257 - N.to_nat b)%nat) in *.
+      destruct (Z.of_nat c <=? limit - w) eqn:Ec.
+      * apply dapp_ok in H. destruct H as [f' [-> Hrec]]. rewrite len_repeat in Hrec.
+        apply IH in Hrec; try assumption; try lia.
+        -- rewrite len_app, len_repeat. lia.
+        -- simpl length in Hn. lia.
+      * destruct (0 <=? maxLen); [|discriminate H]. inversion H. rewrite len_repeat. lia.
+    + cbn [rl_dec] in H.
+      destruct (0 <=? limit) eqn:E0; [|lia]. simpl andb in H.
+      destruct (limit =? w) eqn:E1.
+      * destruct (0 <=? maxLen); [|discriminate H]. inversion H. rewrite len_nil. lia.
+      * apply dcons_ok in H. destruct H as [f' [-> Hrec]].
+        apply IH in Hrec; try assumption; try lia. rewrite len_cons. lia.
+Qed.
+
+Lemma rl_never_more : forall src mdb out,
+  let L := decode_limit (-1) mdb in
+  0 <= L -> rl_decode_length src (-1) mdb = DOk out -> len out <= L.
+Proof.
+  intros src mdb out L HL H. unfold rl_decode_length in H. fold L in H.
+  apply rl_dec_never_more with (n := length src) in H; try assumption; lia.
+Qed.
+
+(* ------------------------------------------------------------------ Flate: row loop *)
+
+Section Rows.
+Variable proc : list N -> list N -> option (list N).
+
+(* the fuel S (length raw) suffices when rows are non-empty *)
+Lemma flate_rows_fuel : forall fuel raw st pd blen maxLen mdb m,
+  (1 <= m)%nat -> (length raw < fuel)%nat ->
+  flate_rows proc fuel raw st pd blen maxLen mdb m <> DErr EFuel.
+Proof.
+  induction fuel as [|fuel IH]; intros raw st pd blen maxLen mdb m Hm Hf.
+  - lia.
+  - cbn [flate_rows].
+    destruct (negb ((maxLen <? 0) || (blen <? maxLen))); [discriminate|].
+    destruct (m <=? length raw)%nat eqn:Em.
+    + destruct (proc pd (firstn m raw)) as [d|]; [|discriminate].
+      destruct ((maxLen <? 0) && (0 <=? decode_limit maxLen mdb) && (decode_limit maxLen mdb <? blen + len d)); [discriminate|].
+      specialize (IH (skipn m raw) st d (blen + len d) maxLen mdb m Hm).
+      assert (Hs : (length (skipn m raw) < fuel)%nat). { rewrite skipn_length. lia. }
+      specialize (IH Hs).
+      destruct (flate_rows proc fuel (skipn m raw) st d (blen + len d) maxLen mdb m) as [l|e]; simpl; [discriminate|].
+      intros Heq. apply IH. inversion Heq. reflexivity.
+    + destruct (length raw =? 0)%nat; destruct st; discriminate.
+Qed.
+
+Lemma flate_rows_limited : forall fuel raw st pd blen mdb m full,
+  let L := decode_limit (-1) mdb in
+  0 <= L -> blen <= L ->
+  flate_rows proc fuel raw st pd blen (-1) (-1) m = DOk full ->
+  flate_rows proc fuel raw st pd blen (-1) mdb m = if blen + len full <=? L then DOk full else DErr ELimit.
+Proof.
+  intros fuel raw st pd blen mdb m full L HL. revert raw pd blen full.
+  induction fuel as [|fuel IH]; intros raw pd blen full Hb H.
+  - discriminate H.
+  - cbn [flate_rows] in H |- *. fold L.
+    change (-1 <? 0) with true in *. simpl orb in *. simpl negb in *. cbv iota in *.
+    destruct (m <=? length raw)%nat eqn:Em.
+    + destruct (proc pd (firstn m raw)) as [d|]; [|discriminate H].
+      rewrite decode_limit_unlimited in H. change (0 <=? -1) with false in H. simpl andb in H. cbv iota in H.
+      apply dapp_ok in H. destruct H as [f' [-> Hrec]].
+      rewrite len_app. pose proof (len_nonneg f') as Hf. pose proof (len_nonneg d) as Hd.
+      destruct (0 <=? L) eqn:E0; [|lia]. simpl andb.
+      destruct (L <? blen + len d) eqn:E1.
+      * destruct (blen + (len d + len f') <=? L) eqn:E2; [lia|reflexivity].
+      * rewrite (IH _ _ (blen + len d) _ ltac:(lia) Hrec).
+        destruct (blen + len d + len f' <=? L) eqn:E2; destruct (blen + (len d + len f') <=? L) eqn:E3; try lia; reflexivity.
+    + destruct (length raw =? 0)%nat; destruct st; try discriminate H; inversion H; subst;
+        rewrite len_nil; (destruct (blen + 0 <=? L) eqn:E; [reflexivity|lia]).
+Qed.
+
+Lemma flate_rows_bounded : forall fuel raw st pd blen n mdb m full,
+  0 <= n ->
+  flate_rows proc fuel raw st pd blen (-1) (-1) m = DOk full ->
+  exists out, flate_rows proc fuel raw st pd blen n mdb m = DOk out /\ prefix out full /\ (n - blen <= len out \/ out = full).
+Proof.
+  intros fuel raw st pd blen n mdb m full Hn. revert raw pd blen full.
+  induction fuel as [|fuel IH]; intros raw pd blen full H.
+  - discriminate H.
+  - cbn [flate_rows] in H |- *.
+    change (-1 <? 0) with true in H. simpl orb in H. simpl negb in H. cbv iota in H.
+    destruct (n <? 0) eqn:En; [lia|]. simpl orb. simpl andb.
+    destruct (blen <? n) eqn:Eb; simpl negb; cbv iota.
+    2:{ exists []. split; [reflexivity|]. split; [exists full; reflexivity|]. left. rewrite len_nil. lia. }
+    destruct (m <=? length raw)%nat eqn:Em.
+    + destruct (proc pd (firstn m raw)) as [d|]; [|discriminate H].
+      rewrite decode_limit_unlimited in H. change (0 <=? -1) with false in H. simpl andb in H. cbv iota in H.
+      apply dapp_ok in H. destruct H as [f' [-> Hrec]].
+      destruct (IH _ _ (blen + len d) _ Hrec) as [out' [Ho [Hp Hl]]].
+      rewrite Ho. simpl dapp. exists (d ++ out'). split; [reflexivity|]. split; [apply prefix_app; exact Hp|].
+      rewrite len_app. destruct Hl as [Hl| ->]; [left; lia|right; reflexivity].
+    + destruct (length raw =? 0)%nat; destruct st; try discriminate H; inversion H; subst;
+        exists []; (split; [reflexivity|]); (split; [apply prefix_refl|right; reflexivity]).
+Qed.
+End Rows.
+
+(* ------------------------------------------------------------------ Flate: decodePostProcess *)
+
+(* the row length (incl. the PNG filter byte) used for pm; 0 without predictor *)
+Definition pm_row_len (pm : parms) : Z :=
+  match p_pred pm with
+  | None => 0
+  | Some p =>
+    if p =? 1 then 0
+    else match flate_parameters pm with
+         | None => 0
+         | Some (colors, bpc, columns) =>
+           match predictor_row_params p colors bpc columns with
+           | Some (_, rowLen, _) => rowLen
+           | None => 0
+           end
+         end
+  end.
+
+Lemma pass_thru_full : forall raw st full, pass_thru (raw, st) (-1) (-1) = DOk full -> full = raw /\ st <> RErr.
+Proof.
+  intros raw st full H. unfold pass_thru in H. rewrite copy_unlimited in H.
+  destruct st; simpl in H; inversion H; split; try reflexivity; discriminate.
+Qed.
+
+Lemma pass_thru_limit_exact : forall raw st full mdb,
+  let L := decode_limit (-1) mdb in
+  0 <= L -> fits full ->
+  pass_thru (raw, st) (-1) (-1) = DOk full ->
+  pass_thru (raw, st) (-1) mdb = if len full <=? L then DOk full else DErr ELimit.
+Proof.
+  intros raw st full mdb L HL Hfit H. destruct (pass_thru_full _ _ _ H) as [-> Hst].
+  unfold pass_thru. rewrite copy_limit_exact by assumption. fold L.
+  destruct (len raw <=? L); [|reflexivity].
+  destruct st; simpl; try reflexivity. congruence.
+Qed.
+
+Lemma pass_thru_bounded : forall raw st full n mdb,
+  0 <= n ->
+  pass_thru (raw, st) (-1) (-1) = DOk full ->
+  (exists out, pass_thru (raw, st) n mdb = DOk out /\ prefix out full /\ (n <= len out \/ out = full))
+  \/ (len full < n /\ exists e, pass_thru (raw, st) n mdb = DErr e /\ too_short e).
+Proof.
+  intros raw st full n mdb Hn H. destruct (pass_thru_full _ _ _ H) as [-> Hst].
+  unfold pass_thru. rewrite copy_bounded by exact Hn.
+  destruct (n <=? len raw) eqn:E.
+  - left. exists (take n raw). split; [reflexivity|]. split; [apply take_prefix|]. left. rewrite len_take by exact Hn. lia.
+  - destruct st.
+    + right. split; [lia|]. exists EEOF. split; [reflexivity|left; reflexivity].
+    + left. exists raw. split; [reflexivity|]. split; [apply prefix_refl|right; reflexivity].
+    + congruence.
+Qed.
+
+Section Post.
+Variable procf : Z -> nat -> nat -> list N -> list N -> option (list N).
+
+Lemma flate_post_limit_exact : forall pm raw st mdb full,
+  let L := decode_limit (-1) mdb in
+  0 <= L -> pm_row_len pm <= L -> fits full ->
+  flate_post_with procf pm (raw, st) (-1) (-1) = DOk full ->
+  flate_post_with procf pm (raw, st) (-1) mdb = if len full <=? L then DOk full else DErr ELimit.
+Proof.
+  intros pm raw st mdb full L HL Hrow Hfit H.
+  unfold flate_post_with, pm_row_len in *. cbv zeta in *. fold L.
+  destruct (p_pred pm) as [p|]; [|apply pass_thru_limit_exact; assumption].
+  destruct (p =? 1); [apply pass_thru_limit_exact; assumption|].
+  destruct (negb (valid_predictor p)); [discriminate H|].
+  destruct (flate_parameters pm) as [[[colors bpc] columns]|]; [|discriminate H].
+  destruct (predictor_row_params p colors bpc columns) as [[[rowSize rowLen] bpp]|]; [|discriminate H].
+  rewrite decode_limit_unlimited in H. change (0 <=? -1) with false in H. simpl andb in H. cbv iota in H.
+  destruct (0 <=? L) eqn:E0; [|lia]. destruct (L <? rowLen) eqn:E1; [lia|]. simpl andb. cbv iota.
+  simpl fst in *. simpl snd in *.
+  destruct (flate_rows _ _ raw st _ 0 (-1) (-1) _) as [b|e] eqn:Er; [|discriminate H].
+  rewrite (flate_rows_limited _ _ _ _ _ _ _ _ _ HL HL Er). fold L. rewrite Z.add_0_l.
+  change (-1 <? 0) with true in *. simpl andb in *.
+  destruct (0 <? len b mod rowSize) eqn:Em; [discriminate H|]. inversion H; subst b.
+  destruct (len full <=? L); [|reflexivity]. rewrite Em. reflexivity.
+Qed.
+
+Lemma flate_post_bounded : forall pm raw st n mdb full,
+  0 <= n ->
+  decode_limit (-1) mdb < 0 \/ pm_row_len pm <= decode_limit (-1) mdb ->
+  flate_post_with procf pm (raw, st) (-1) (-1) = DOk full ->
+  (exists out, flate_post_with procf pm (raw, st) n mdb = DOk out /\ prefix out full /\ (n <= len out \/ out = full))
+  \/ (len full < n /\ exists e, flate_post_with procf pm (raw, st) n mdb = DErr e /\ too_short e).
+Proof.
+  intros pm raw st n mdb full Hn Hrow H.
+  unfold flate_post_with, pm_row_len in *. cbv zeta in *.
+  destruct (p_pred pm) as [p|]; [|apply pass_thru_bounded; assumption].
+  destruct (p =? 1); [apply pass_thru_bounded; assumption|].
+  destruct (negb (valid_predictor p)); [discriminate H|].
+  destruct (flate_parameters pm) as [[[colors bpc] columns]|]; [|discriminate H].
+  destruct (predictor_row_params p colors bpc columns) as [[[rowSize rowLen] bpp]|]; [|discriminate H].
+  rewrite decode_limit_unlimited in H. change (0 <=? -1) with false in H. simpl andb in H. cbv iota in H.
+  assert (Hc : (0 <=? decode_limit (-1) mdb) && (decode_limit (-1) mdb <? rowLen) = false).
+  { destruct (0 <=? decode_limit (-1) mdb) eqn:E0; destruct (decode_limit (-1) mdb <? rowLen) eqn:E1; try reflexivity. lia. }
+  rewrite Hc. cbv iota. simpl fst in *. simpl snd in *.
+  destruct (flate_rows _ _ raw st _ 0 (-1) (-1) _) as [b|e] eqn:Er; [|discriminate H].
+  change (-1 <? 0) with true in H. simpl andb in H.
+  destruct (0 <? len b mod rowSize); [discriminate H|]. inversion H; subst b.
+  destruct (flate_rows_bounded _ _ _ _ _ _ n mdb _ _ Hn Er) as [out [Ho [Hp Hl]]].
+  rewrite Ho. destruct (n <? 0) eqn:En; [lia|]. simpl andb. cbv iota.
+  left. exists out. split; [reflexivity|]. split; [exact Hp|]. rewrite Z.sub_0_r in Hl. exact Hl.
+Qed.
+End Post.
+
+
+(* ------------------------------------------------------------------ the stage law *)
+
+(* d inp maxLen mdb: Filter.DecodeLength of a filter constructed with maxDecodeBytes = mdb
+   (maxLen = -1: Filter.Decode).  minL: smallest limit for which the law is claimed (0 except for
+   Flate with a predictor, where it is the row length). *)
+Record stage_ok (d : list N -> Z -> Z -> dres) (minL : Z) : Prop := {
+  so_limit : forall inp full mdb,
+    d inp (-1) (-1) = DOk full -> fits full ->
+    0 <= decode_limit (-1) mdb -> minL <= decode_limit (-1) mdb ->
+    d inp (-1) mdb = if len full <=? decode_limit (-1) mdb then DOk full else DErr ELimit;
+  so_bounded : forall inp full n mdb,
+    d inp (-1) (-1) = DOk full -> 0 <= n ->
+    decode_limit (-1) mdb < 0 \/ minL <= decode_limit (-1) mdb ->
+    (exists out, d inp n mdb = DOk out /\ prefix out full /\ (n <= len out \/ out = full))
+    \/ (len full < n /\ exists e, d inp n mdb = DErr e /\ too_short e) }.
+
+Lemma stage_ok_mono : forall d a b, a <= b -> stage_ok d a -> stage_ok d b.
+Proof.
+  intros d a b Hab [Hl Hb]. split.
+  - intros inp full mdb H Hf H0 Hm. apply Hl; try assumption. lia.
+  - intros inp full n mdb H Hn Hm. apply Hb; try assumption. destruct Hm; [left; assumption|right; lia].
+Qed.
+
+Lemma stage_ok_ahx : stage_ok ahx_decode_length 0.
+Proof.
+  split.
+  - intros inp full mdb H _ H0 _. apply ahx_limit_exact; assumption.
+  - intros inp full n mdb H Hn _. rewrite (ahx_bounded _ _ _ _ H Hn).
+    destruct (n <=? len full) eqn:E.
+    + left. exists (take n full). split; [reflexivity|]. split; [apply take_prefix|]. left. rewrite len_take by exact Hn. lia.
+    + right. split; [lia|]. exists EUnexpEOF. split; [reflexivity|right; reflexivity].
+Qed.
+
+Lemma stage_ok_rl : stage_ok rl_decode_length 0.
+Proof.
+  split.
+  - intros inp full mdb H _ H0 _. apply rl_limit_exact; assumption.
+  - intros inp full n mdb H Hn _. rewrite (rl_bounded _ _ _ _ H Hn).
+    left. exists (take n full). split; [reflexivity|]. split; [apply take_prefix|].
+    destruct (Z.le_gt_cases n (len full)) as [Hle|Hgt].
+    + left. rewrite len_take by exact Hn. lia.
+    + right. apply take_all. lia.
+Qed.
+
+(* filters that copy a decoder stream through copyDecoded *)
+Lemma of_copy_full : forall s full, of_copy (copy_decoded s (-1) (-1)) = DOk full -> s = (full, REof).
+Proof.
+  intros [data st] full H. rewrite copy_unlimited in H. destruct st; simpl in H; try discriminate H.
+  inversion H. reflexivity.
+Qed.
+
+Lemma of_copy_limit_exact : forall s full mdb,
+  of_copy (copy_decoded s (-1) (-1)) = DOk full -> fits full -> 0 <= decode_limit (-1) mdb ->
+  of_copy (copy_decoded s (-1) mdb) = if len full <=? decode_limit (-1) mdb then DOk full else DErr ELimit.
+Proof.
+  intros s full mdb H Hf H0. rewrite (of_copy_full _ _ H). rewrite copy_limit_exact by assumption.
+  destruct (len full <=? decode_limit (-1) mdb); reflexivity.
+Qed.
+
+Lemma of_copy_bounded : forall s full n mdb,
+  of_copy (copy_decoded s (-1) (-1)) = DOk full -> 0 <= n ->
+  (exists out, of_copy (copy_decoded s n mdb) = DOk out /\ prefix out full /\ (n <= len out \/ out = full))
+  \/ (len full < n /\ exists e, of_copy (copy_decoded s n mdb) = DErr e /\ too_short e).
+Proof.
+  intros s full n mdb H Hn. rewrite (of_copy_full _ _ H). rewrite copy_bounded by exact Hn.
+  destruct (n <=? len full) eqn:E.
+  - left. exists (take n full). split; [reflexivity|]. split; [apply take_prefix|]. left. rewrite len_take by exact Hn. lia.
+  - right. split; [lia|]. exists EEOF. split; [reflexivity|left; reflexivity].
+Qed.
+
+Lemma stage_ok_a85 : forall a85open, stage_ok (a85_decode_length a85open) 0.
+Proof.
+  intros a85open. split.
+  - intros inp full mdb H Hf H0 _. unfold a85_decode_length in *.
+    destruct (rev (trim_right_crlf inp)) as [|g [|t r]]; try discriminate H.
+    destruct ((g =? 62) && (t =? 126))%N; [|discriminate H].
+    apply of_copy_limit_exact; assumption.
+  - intros inp full n mdb H Hn _. unfold a85_decode_length in *.
+    destruct (rev (trim_right_crlf inp)) as [|g [|t r]]; try discriminate H.
+    destruct ((g =? 62) && (t =? 126))%N; [|discriminate H].
+    apply of_copy_bounded; assumption.
+Qed.
+
+Lemma stage_ok_lzw : forall lzwopen pm, stage_ok (lzw_decode_length lzwopen pm) 0.
+Proof.
+  intros lzwopen pm. split.
+  - intros inp full mdb H Hf H0 _. unfold lzw_decode_length in *.
+    destruct (p_pred pm) as [p|].
+    + destruct (1 <? p); [discriminate H|]. apply of_copy_limit_exact; assumption.
+    + apply of_copy_limit_exact; assumption.
+  - intros inp full n mdb H Hn _. unfold lzw_decode_length in *.
+    destruct (p_pred pm) as [p|].
+    + destruct (1 <? p); [discriminate H|]. apply of_copy_bounded; assumption.
+    + apply of_copy_bounded; assumption.
+Qed.
+
+Lemma stage_ok_flate : forall zopen pm, stage_ok (flate_decode_length zopen pm) (pm_row_len pm).
+Proof.
+  intros zopen pm. split.
+  - intros inp full mdb H Hf H0 Hm. unfold flate_decode_length in *.
+    destruct (zopen inp) as [[raw st]|]; [|discriminate H].
+    unfold flate_post in *. apply flate_post_limit_exact; assumption.
+  - intros inp full n mdb H Hn Hm. unfold flate_decode_length in *.
+    destruct (zopen inp) as [[raw st]|]; [|discriminate H].
+    unfold flate_post in *. apply flate_post_bounded; assumption.
+Qed.
+
+(* ------------------------------------------------------------------ pipelines *)
+
+(* largest stage output of the unlimited decoding of raw *)
+Fixpoint pipe_max (sts : list stage) (b : list N) : Z :=
+  match sts with
+  | [] => 0
+  | s :: rest =>
+    match s_dec s b (-1) (-1) with
+    | DOk c => Z.max (len c) (pipe_max rest c)
+    | DErr _ => 0
+    end
+  end.
+
+Lemma pipe_max_nonneg : forall sts b, 0 <= pipe_max sts b.
+Proof.
+  induction sts as [|s rest IH]; intros b; simpl; [lia|].
+  destruct (s_dec s b (-1) (-1)); [|lia]. specialize (IH l). lia.
+Qed.
+
+Lemma ml_unbounded : forall (rest : list stage),
+  match rest with [] => if 0 <=? -1 then -1 else -1 | _ => -1 end = -1.
+Proof. intros [|s r]; reflexivity. Qed.
+
+Lemma pipe_stages_limit_exact : forall minL mdb sts raw full,
+  (forall s, In s sts -> stage_ok (s_dec s) minL) ->
+  0 <= decode_limit (-1) mdb -> minL <= decode_limit (-1) mdb ->
+  pipe_max sts raw < max_int64 ->
+  pipe_stages sts raw (-1) (-1) = DOk full ->
+  pipe_stages sts raw (-1) mdb = if pipe_max sts raw <=? decode_limit (-1) mdb then DOk full else DErr ELimit.
+Proof.
+  intros minL mdb. set (L := decode_limit (-1) mdb).
+  induction sts as [|s rest IH]; intros raw full Hok H0 Hm Hfit H.
+  - simpl in *. destruct (0 <=? L) eqn:E; [exact H|lia].
+  - cbn [pipe_stages pipe_max] in *. rewrite ml_unbounded in *.
+    destruct (s_dec s raw (-1) (-1)) as [c|e] eqn:Ec; [|discriminate H].
+    pose proof (pipe_max_nonneg rest c) as Hnn. pose proof (len_nonneg c) as Hc.
+    assert (Hs : stage_ok (s_dec s) minL) by (apply Hok; left; reflexivity).
+    rewrite (so_limit _ _ Hs raw c mdb Ec); try assumption; [|unfold fits; lia].
+    fold L. destruct (len c <=? L) eqn:E1.
+    + rewrite (IH c full); try assumption; try lia.
+      * destruct (pipe_max rest c <=? L) eqn:E2; destruct (Z.max (len c) (pipe_max rest c) <=? L) eqn:E3; try lia; reflexivity.
+      * intros s' Hin. apply Hok. right. exact Hin.
+    + destruct (Z.max (len c) (pipe_max rest c) <=? L) eqn:E3; [lia|reflexivity].
+Qed.
+
+Lemma pipe_final_le_max : forall sts raw full, sts <> [] ->
+  pipe_stages sts raw (-1) (-1) = DOk full -> len full <= pipe_max sts raw.
+Proof.
+  induction sts as [|s rest IH]; intros raw full Hne H; [congruence|].
+  cbn [pipe_stages pipe_max] in *. rewrite ml_unbounded in *.
+  destruct (s_dec s raw (-1) (-1)) as [c|e]; [|discriminate H].
+  destruct rest as [|s' rest'].
+  - simpl in H. inversion H; subst. simpl. lia.
+  - specialize (IH c full ltac:(discriminate) H). lia.
+Qed.
+
+Lemma pipeline_limit_exact : forall minL mdb sts raw full,
+  (forall s, In s sts -> stage_ok (s_dec s) minL) ->
+  0 <= decode_limit (-1) mdb -> minL <= decode_limit (-1) mdb ->
+  pipe_max sts raw < max_int64 ->
+  pipe_decode sts raw (-1) (-1) = DOk full ->
+  pipe_decode sts raw (-1) mdb = if pipe_max sts raw <=? decode_limit (-1) mdb then DOk full else DErr ELimit.
+Proof.
+  intros minL mdb sts raw full Hok H0 Hm Hfit H. unfold pipe_decode in *.
+  change (-1 <? 0) with true in *. cbv iota in *.
+  destruct (pipe_stages sts raw (-1) (-1)) as [d|e] eqn:E; [|discriminate H]. inversion H; subst d.
+  rewrite (pipe_stages_limit_exact minL mdb sts raw full Hok H0 Hm Hfit E).
+  destruct (pipe_max sts raw <=? decode_limit (-1) mdb); reflexivity.
+Qed.
+
+Lemma pipeline_never_more : forall minL mdb sts raw full out,
+  (forall s, In s sts -> stage_ok (s_dec s) minL) -> sts <> [] ->
+  0 <= decode_limit (-1) mdb -> minL <= decode_limit (-1) mdb ->
+  pipe_max sts raw < max_int64 ->
+  pipe_decode sts raw (-1) (-1) = DOk full ->
+  pipe_decode sts raw (-1) mdb = DOk out -> out = full /\ len out <= decode_limit (-1) mdb.
+Proof.
+  intros minL mdb sts raw full out Hok Hne H0 Hm Hfit H Ho.
+  rewrite (pipeline_limit_exact minL mdb sts raw full Hok H0 Hm Hfit H) in Ho.
+  destruct (pipe_max sts raw <=? decode_limit (-1) mdb) eqn:E; [|discriminate Ho].
+  inversion Ho; subst out. split; [reflexivity|].
+  unfold pipe_decode in H. change (-1 <? 0) with true in H. cbv iota in H.
+  destruct (pipe_stages sts raw (-1) (-1)) as [d|e] eqn:Ed; [|discriminate H]. inversion H; subst d.
+  pose proof (pipe_final_le_max sts raw full Hne Ed). lia.
+Qed.
+
+Lemma pipe_stages_bounded : forall minL n sts raw full,
+  (forall s, In s sts -> stage_ok (s_dec s) minL) -> 0 <= n ->
+  pipe_stages sts raw (-1) (-1) = DOk full ->
+  (exists out, pipe_stages sts raw n (-1) = DOk out /\ prefix out full /\ (n <= len out \/ out = full))
+  \/ (len full < n /\ exists e, pipe_stages sts raw n (-1) = DErr e /\ too_short e).
+Proof.
+  intros minL n. induction sts as [|s rest IH]; intros raw full Hok Hn H.
+  - simpl in *. inversion H; subst. left. exists full. split; [reflexivity|]. split; [apply prefix_refl|right; reflexivity].
+  - cbn [pipe_stages] in *. rewrite ml_unbounded in H.
+    destruct (s_dec s raw (-1) (-1)) as [c|e] eqn:Ec; [|discriminate H].
+    assert (Hs : stage_ok (s_dec s) minL) by (apply Hok; left; reflexivity).
+    destruct rest as [|s' rest'].
+    + simpl in H. inversion H; subst c.
+      destruct (0 <=? n) eqn:E0; [|lia].
+      destruct (so_bounded _ _ Hs raw full n (-1) Ec Hn) as [[out [Ho Hp]]|[Hlt [e [He Hts]]]].
+      * left. rewrite decode_limit_unlimited. lia.
+      * left. exists out. rewrite Ho. simpl. split; [reflexivity|exact Hp].
+      * right. split; [exact Hlt|]. exists e. rewrite He. split; [reflexivity|exact Hts].
+    + rewrite Ec. apply IH; try assumption. intros s0 Hin. apply Hok. right. exact Hin.
+Qed.
+
+Lemma pipeline_bounded : forall minL n sts raw full,
+  (forall s, In s sts -> stage_ok (s_dec s) minL) -> 0 <= n ->
+  pipe_decode sts raw (-1) (-1) = DOk full ->
+  (n <= len full /\ pipe_decode sts raw n (-1) = DOk (take n full))
+  \/ (len full < n /\ exists e, pipe_decode sts raw n (-1) = DErr e /\ too_short e).
+Proof.
+  intros minL n sts raw full Hok Hn H. unfold pipe_decode in *.
+  change (-1 <? 0) with true in H. cbv iota in H.
+  destruct (pipe_stages sts raw (-1) (-1)) as [d|e] eqn:E; [|discriminate H]. inversion H; subst d.
+  destruct (n <? 0) eqn:En; [lia|].
+  destruct (pipe_stages_bounded minL n sts raw full Hok Hn E) as [[out [Ho [Hp Hl]]]|[Hlt [e [He Hts]]]].
+  - rewrite Ho. pose proof (prefix_len _ _ Hp) as Hpl.
+    destruct (Z.le_gt_cases n (len full)) as [Hle|Hgt].
+    + left. split; [exact Hle|].
+      destruct Hl as [Hl| ->].
+      * destruct (len out <? n) eqn:E1; [lia|]. f_equal. apply prefix_take; [exact Hp|lia].
+      * destruct (len full <? n) eqn:E1; [lia|]. reflexivity.
+    + right. split; [lia|]. exists EUnexpEOF.
+      destruct (len out <? n) eqn:E1; [|lia]. split; [reflexivity|right; reflexivity].
+  - right. split; [exact Hlt|]. exists e. rewrite He. split; [reflexivity|exact Hts].
+Qed.
+
+Lemma stage_ok_filters :
+  stage_ok ahx_decode_length 0 /\ stage_ok rl_decode_length 0 /\
+  (forall a85open, stage_ok (a85_decode_length a85open) 0) /\
+  (forall lzwopen pm, stage_ok (lzw_decode_length lzwopen pm) 0) /\
+  (forall zopen pm, stage_ok (flate_decode_length zopen pm) (pm_row_len pm)).
+Proof.
+  split; [exact stage_ok_ahx|]. split; [exact stage_ok_rl|]. split; [exact stage_ok_a85|].
+  split; [exact stage_ok_lzw|exact stage_ok_flate].
+Qed.
